@@ -61,6 +61,18 @@ def gen(ctx):
             ln = rng.choice([0, 1, 1, 2, 3, 4, 6])
             args.append("".join(rng.choice(ALPHABET) for _ in range(ln)))
         add(name, args)
+    # the same arguments inside command lists (1..6 commands, all three ways of building the list): the bytes must reach the wire
+    # whole and in order whatever the connection flavour and however few bytes the transport takes per write
+    for _ in range(60 if ctx.tier == "quick" else 600):
+        cmds = []
+        for _ in range(rng.choice([1, 2, 3, 6])):
+            args = ["".join(rng.choice(ALPHABET) for _ in range(rng.choice([0, 1, 3, 9, 40]))) for _ in range(rng.choice([0, 1, 2, 3]))]
+            if any("\n" in a or "\x00" in a for a in args):
+                continue
+            cmds.append(",".join([hexs(rng.choice(NAMES[:6]))] + [hexs(a) for a in args]))
+        if cmds:
+            cases.append(" ".join(["cmd_list", rng.choice(["add", "command", "extend"])] + cmds))
+            meta.append(("", []))
     if ctx.tier == "thorough":
         # every argument string of length <= 4 over a 10-symbol class alphabet, in each of 3 positions
         strings = [""]
